@@ -6,7 +6,8 @@
                       the set operation (parenthesised form) or on its first select (bare form); tag `cte:on-setop`
                       resp. `cte:before-setop`;
 * `update-twice`    — UPDATE whose SET list assigns one column more than once; tag `update:set-column-twice`;
-* values            — the value None (printed NULL) next to the ints / floats / strings of holes.value().
+* values            — the value None (printed NULL) next to the ints / floats / strings of holes.value(); literal() also
+                      prints booleans (TRUE / FALSE) and strings holding quote characters (c12_more.value()).
 
 `text()` / `literal()` are those of holes.py plus None -> NULL.
 """
@@ -22,6 +23,11 @@ MECHANISM_TAGS = ('setop:chain', 'cte:on-setop', 'cte:before-setop', 'update:set
 def literal(v):
     if v is None:
         return 'NULL'
+    if isinstance(v, bool):
+        return 'TRUE' if v else 'FALSE'
+    if isinstance(v, str) and ("'" in v or '"' in v):
+        assert '\\' not in v
+        return "'" + v.replace("'", "''") + "'"
     return holes.literal(v)
 
 
